@@ -2,7 +2,7 @@
    plain text and line breaks, the children that _TextParser builds flatten to the payload's characters,
    each with exactly the styles of the tags that enclose it. *)
 From TT Require Import Base.Prelude Base.SrtTypes Gen.SrtTables Model.SrtReader Spec.SrtCueSpec
-  Proofs.C10.Lines Proofs.C10.Text Proofs.C10.Roundtrip Proofs.C10.Font.
+  Proofs.C10.Lines Proofs.C10.Text Proofs.C10.Roundtrip Proofs.C10.NoFinalEol Proofs.C10.Font.
 Local Open Scope Z_scope.
 
 (* ------------------------------------------------------------------ induction over nodes *)
@@ -306,12 +306,12 @@ Proof.
   unfold cue_ok. apply angle_payload_good; auto. apply (w_nodes c H1).
 Qed.
 
-Theorem roundtrip_angle_file f : wf_file f = true -> f_final_eol f = true -> angle_file f = true ->
+Theorem roundtrip_angle_file f : wf_file f = true -> angle_file f = true ->
   trigger_backslash f = false -> read_cues_file (print_file f) = Ok (cues f).
-Proof. intros. apply roundtrip_file; auto using angle_cues_ok. Qed.
-Theorem roundtrip_angle_lf f : wf_file f = true -> f_final_eol f = true -> f_crlf f = false -> angle_file f = true ->
+Proof. intros. apply roundtrip_file_any; auto using angle_cues_ok. Qed.
+Theorem roundtrip_angle_lf f : wf_file f = true -> f_crlf f = false -> angle_file f = true ->
   trigger_backslash f = false -> read_cues (print_file f) = Ok (cues f).
-Proof. intros. apply roundtrip_lf; auto using angle_cues_ok. Qed.
+Proof. intros. apply roundtrip_lf_any; auto using angle_cues_ok. Qed.
 
 (* ------------------------------------------------------------------ tolerance *)
 
@@ -326,7 +326,7 @@ Proof. induction 1 as [|c c' l l' H _ IH]; [reflexivity|]. cbn [map]. rewrite (s
 (* counters, leading / separating / trailing blank-line runs, 2- or 3-digit hours, the white space around the
    arrow, the rest of the timing line and the line terminator have no influence on what is read *)
 Theorem tolerates f f' :
-  wf_file f = true -> wf_file f' = true -> f_final_eol f = true -> f_final_eol f' = true ->
+  wf_file f = true -> wf_file f' = true ->
   angle_file f = true -> angle_file f' = true -> trigger_backslash f = false -> trigger_backslash f' = false ->
   Forall2 same_content (f_cues f) (f_cues f') ->
   read_cues_file (print_file f) = read_cues_file (print_file f') /\ read_cues_file (print_file f) = Ok (cues f).
